@@ -135,6 +135,8 @@ def w_plans(idx):
         Node.store.clear()
         root = build(items, fault, random.Random(i))
         evs.append(record_expand(root, {"items": items, "fault": fault}))
+        if len(G["cases"]) > 4000 and i % 4:
+            continue         # a large plan set (thorough tier): the variants below on every fourth plan
         # the same plan on a tree that carries what an XML import leaves behind: a default namespace (key None) next to a prefixed one
         Node.store.clear()
         root = build(items, fault, random.Random(i))
